@@ -2721,6 +2721,12 @@ class PyCdlib:
         if found_record.inode is None:
             raise pycdlibexception.PyCdlibInvalidInput('Cannot write out a file without data')
 
+        if found_record.inode.boot_info_table is not None and self._needs_reshuffle:
+            # The boot info table holds the locations of the volume descriptor
+            # and of the file itself, which have to be up to date (or, on a
+            # new ISO, assigned in the first place).
+            self._reshuffle_extents()
+
         while found_record.get_data_length() > 0:
             with inode.InodeOpenData(found_record.inode, self.logical_block_size) as (data_fp, data_len):
                 # Copy the data into the output file descriptor.  If a boot info
